@@ -236,7 +236,8 @@ fn run(case: &Case11) -> Option<(String, Value)> {
             if carries_font {
                 let font_name = buf.get_font(0).map(|f| f.name.clone()).unwrap_or_default();
                 let want: String = font_name.chars().take(22).collect();
-                if ls.font_opt.as_deref().unwrap_or("") != want {
+                // the field is blank/NUL padded: trailing blanks are not significant
+                if ls.font_opt.as_deref().unwrap_or("").trim_end_matches([' ', '\0']) != want.trim_end_matches([' ', '\0']) {
                     return Some((format!("sauce|{ext}|reader|font-name"), json!({"saved": want, "loaded": ls.font_opt})));
                 }
             }
@@ -309,8 +310,10 @@ fn run(case: &Case11) -> Option<(String, Value)> {
                 Ok(None) => return Some((format!("sauce|{ext}|record-not-found"), json!({"content_len": content.len()}))),
                 Err(e) => return Some((format!("sauce|{ext}|extract-error"), json!({"error": e.to_string(), "content_len": content.len()}))),
             }
-            let a = load(ext, &content);
-            let b = load(ext, &with);
+            // a text file is also loaded under a name no format claims (the loader then falls back to ANSI)
+            let load_ext = if matches!(ext, "ans" | "asc") && content.len() % 3 == 0 { "nfo" } else { ext };
+            let a = load(load_ext, &content);
+            let b = load(load_ext, &with);
             match (a, b) {
                 (Ok(a), Ok(b)) => {
                     if a.get_size() != b.get_size() {
@@ -428,6 +431,16 @@ impl C11 {
             d.layers[0].cells.push(doc::CellD { x: w - 1, y: h - 1, ch: 0x59, fg: 7, bg: 0, attr: 0, fp: 0 });
         }
         d.sauce = Some(gen_sauce(&mut rng));
+        if mode == "meta" && matches!(ext, "ans" | "asc" | "bin" | "icy") && rng.chance(1, 3) {
+            // font names of every length: the SAUCE field holds 22 characters, built-in names are up to 31 long
+            d.fonts.clear();
+            if rng.bool() {
+                d.fonts.push(doc::FontD { slot: 0, name: String::new(), height: 16, builtin: Some(1 + rng.usize(42)), data: vec![], sauce_name: None });
+            } else {
+                let n = *rng.pick(&[0usize, 1, 21, 22, 23, 24, 31, 40]);
+                d.fonts.push(doc::FontD { slot: 0, name: "Custom font name 0123456789 abcdefghijklmnop"[..n].to_string(), height: 16, builtin: None, data: rng.bytes(4096), sauce_name: None });
+            }
+        }
         let mut content_tail = vec![];
         let mut raw_content = None;
         if mode != "meta" && matches!(ext, "ans" | "asc" | "pcb" | "avt") {
@@ -491,7 +504,7 @@ impl Prop for C11 {
         "C11"
     }
     fn rule(&self) -> &'static str {
-        "for each of the ten writers that append SAUCE (ans asc avt pcb bin xb tnd adf idf icy): (meta) a document with generated title/author/group of every length 0..=35/20/20 over CP437 incl. blanks, 0..=255 comment lines, flag combinations and widths 1..=1000 (format limits) is saved with SAUCE; a reference SAUCE reader written from the Revision-5 layout parses the trailer (writer side) and Buffer::get_sauce() after loading is compared with the per-variant projection (reader side: texts, comments, width, ice flag, spacing/aspect flags, font name); (cut) content vs content+trailer with the loader's default width/ice/font: SauceData::extract must report sauce_header_len == trailer length and both loads must give the same size and cells; content variants ending in SAUCE00 / COMNT look-alikes or in one or more 0x1A bytes of their own (text and binary formats), empty, 1/127/128/129/133/192/193 bytes; (foreign) the same with a trailer written by the harness's reference writer (NUL padding). distinct_nontrivial = distinct (writer, mode, title/author length, comment count, width, content class) fingerprints"
+        "for each of the ten writers that append SAUCE (ans asc avt pcb bin xb tnd adf idf icy): (meta) a document with generated title/author/group of every length 0..=35/20/20 over CP437 incl. blanks, 0..=255 comment lines, flag combinations, widths 1..=1000 (format limits) and font-0 names of 0..=40 characters (built-in pages and custom fonts) is saved with SAUCE; a reference SAUCE reader written from the Revision-5 layout parses the trailer (writer side) and Buffer::get_sauce() after loading is compared with the per-variant projection (reader side: texts, comments, width, ice flag, spacing/aspect flags, font name); (cut) content vs content+trailer with the loader's default width/ice/font: SauceData::extract must report sauce_header_len == trailer length and both loads (for ans/asc also under an unclaimed extension, the ANSI fallback) must give the same size and cells; content variants ending in SAUCE00 / COMNT look-alikes or in one or more 0x1A bytes of their own (text and binary formats), empty, 1/127/128/129/133/192/193 bytes; (foreign) the same with a trailer written by the harness's reference writer (NUL padding). distinct_nontrivial = distinct (writer, mode, title/author length, comment count, width, content class) fingerprints"
     }
     fn meta(&self, ctx: &Ctx) -> Value {
         json!({"floor_evaluations": 2000, "floor_distinct": ctx.tier.pick(1500u64, 20000u64),
